@@ -29,7 +29,7 @@ PROPS = {
 }
 
 PROPS["C18"] = {
-    "level_text": "Theorems for all vectors of any dimension about the bit-exact Gallina transcription of distance.go (float32 = SpecFloat, linked to IEEE-754 real semantics by a proved bridge to Flocq): every kind symmetric bit for bit; Euclidean kinds never below zero, never NaN on finite inputs, exactly +0 from a finite vector to itself; cosine distance in [0,2] or NaN; zero vectors rejected; batch = element-wise; the comparison key used by every sort is IEEE comparison. Tied to the code by differential runs over magnitudes 1e-6..1e6, dims 1..512; the float-tolerance forms of the remaining real-number laws (triangle, l2sq=l2^2, cosine=1-cos, scale invariance, unit norm after preprocessing) are evaluated on the implementation's outputs as the search arm.",
+    "level_text": "Theorems for all vectors of any dimension about the bit-exact Gallina transcription of distance.go (float32 = SpecFloat, linked to IEEE-754 real semantics by a proved bridge to Flocq): every kind symmetric bit for bit; Euclidean kinds never below zero, never NaN on finite inputs, exactly +0 from a finite vector to itself; cosine distance in [0,2] or NaN; zero vectors rejected; batch = element-wise; the comparison key used by every sort is IEEE comparison. Tied to the code by differential runs over magnitudes 1e-6..1e6, dims 1..512; the float-tolerance forms of the remaining real-number laws (triangle, l2sq=l2^2, cosine=1-cos, scale invariance, unit norm after preprocessing) are evaluated on the implementation's outputs as the search arm. 'Squared-Euclidean is its square' is PROVED over the reals for every pair of vectors with a finite squared distance: the Euclidean distance is the correctly rounded root, so |l2^2 - l2sq| <= (2^-23 + 2^-48) l2sq (Proofs/SqrtP.v, through Flocq's Bsqrt_correct and relative_error_N_FLT; the root of a positive float32 is never subnormal).",
     "level_note": "Trusted: Coq kernel, extraction, harness, float32=SpecFloat(24,128) on amd64, math.Sqrt correctly rounded, Flocq 4.1.0 with the stdlib real-number axioms (named in trusted_base). Float error-propagation bounds for the tolerance-form laws are not machine-checked (partial).",
     "correspondence": "distance.go ~ Model.Distance",
     "assumptions": ["amd64 without FMA contraction", "float32(math.Sqrt(float64(x))) = SFsqrt at precision 24"],
